@@ -154,7 +154,7 @@ def positions(T, v):
                 yield from positions(a[0], x)
 
 
-UNHASHABLE_HEADS = ("list", "set", "dict", "MIO", "Mapping")
+UNHASHABLE_HEADS = ("list", "set", "dict", "MIO", "Mapping", "Sequence", "Iterable")   # abstract sequence targets are instantiated as lists
 
 
 def classify(T, v, exc=None):
@@ -176,6 +176,9 @@ def classify(T, v, exc=None):
                 mechs.add("set-rebuilt-with-unhashable-items")
     if isinstance(exc, ValueError) and "mapping-meets-iterable-pattern" in mechs:
         return "mapping-meets-iterable-pattern"  # the unpacking error is specific to that mechanism
+    # a set whose items become unhashable once coerced fails whatever else is true of the pair
+    if "set-rebuilt-with-unhashable-items" in mechs:
+        return "set-rebuilt-with-unhashable-items"
     return sorted(mechs)[0] if mechs else None
 
 
